@@ -4,20 +4,113 @@ package db
 
 // Contracts for the hvc verifier (/verif). Comment-only.
 // The database methods do not change modelled Go memory; they are observable effects.
+//
+// C10 (the part a contract can state): every statement binds each column to the
+// field it is named after, and reads each column back into that same field.
+//   sqlparam(text, "Col")  index of the placeholder bound to column Col (computed from the literal statement text)
+//   sqlout(text, "Col")    index of Col in a SELECT list
+// so the contracts do not depend on the order in which the columns are listed,
+// only on statement text and argument list agreeing with each other.
 
-//@ func (db *DB) ListenerRemove(Name string) (err error)
-//@   requires nonnil: db != nil
-//@ func (db *DB) ListenerAdd(Name string, Protocol string, Config string) (err error)
-//@   requires nonnil: db != nil
-//@ func (db *DB) LinkAdd(ParentAgentID int, LinkAgentID int) (err error)
-//@   requires nonnil: db != nil
-//@ func (db *DB) LinkRemove(ParentAgentID int, LinkAgentID int) (err error)
-//@   requires nonnil: db != nil
+//@ spec bindS(col) = unboxed(arg(1)[sqlparam(lastarg(Prepare, 1), col)], string)
+//@ spec bindI(col) = unboxed(arg(1)[sqlparam(lastarg(Prepare, 1), col)], int)
+//@ spec bindI64(col) = unboxed(arg(1)[sqlparam(lastarg(Prepare, 1), col)], int64)
+//@ spec bindI32(col) = unboxed(arg(1)[sqlparam(lastarg(Prepare, 1), col)], int32)
+//@ spec bindsInfo(agent) = bindS("Hostname") == agent.Info.Hostname && bindS("Username") == agent.Info.Username && bindS("DomainName") == agent.Info.DomainName && bindS("ExternalIP") == agent.Info.ExternalIP && bindS("InternalIP") == agent.Info.InternalIP && bindS("OSVersion") == agent.Info.OSVersion && bindS("OSArch") == agent.Info.OSArch && bindS("FirstCallIn") == agent.Info.FirstCallIn && bindS("LastCallIn") == agent.Info.LastCallIn
+//@ spec bindsProc(agent) = bindS("ProcessName") == agent.Info.ProcessName && bindI64("BaseAddress") == agent.Info.BaseAddress && bindI("ProcessPID") == agent.Info.ProcessPID && bindI("ProcessTID") == agent.Info.ProcessTID && bindI("ProcessPPID") == agent.Info.ProcessPPID && bindS("ProcessArch") == agent.Info.ProcessArch && bindS("Elevated") == agent.Info.Elevated
+//@ spec bindsSched(agent) = bindI("SleepDelay") == agent.Info.SleepDelay && bindI("SleepJitter") == agent.Info.SleepJitter && bindI64("KillDate") == agent.Info.KillDate && bindI32("WorkingHours") == agent.Info.WorkingHours
+//@ spec bindsKeys(agent) = bindS("AESKey") == ufs_b64(agent.Encryption.AESKey) && bindS("AESIv") == ufs_b64(agent.Encryption.AESIv)
+
+// Every session id the teamserver hands out (eight hex digits, the whole 32-bit
+// range) gets its row: the id never fails to parse, and the row is keyed by it.
 //@ func (db *DB) AgentAdd(agent *agent.Agent) (err error)
-//@   requires nonnil: db != nil && agent != nil && agent.Info != nil
+//@   requires nonnil: db != nil && db.db != nil && agent != nil && agent.Info != nil
+//@   ensures allids: ufb_ishex8(agent.NameID) ==> !(err != nil && ufb_parseerr(err))
+//@   guard-call table: "Exec" prefixof("INSERT INTO TS_Agents ", lastarg(Prepare, 1)) && len(arg(1)) == 25
+//@   guard-call id:    "Exec" ufb_ishex8(agent.NameID) ==> bindI("AgentID") == uf_hexval(agent.NameID)
+//@   guard-call state: "Exec" bindI("Active") == 1 && bindS("Reason") == ""
+//@   guard-call keys:  "Exec" bindsKeys(agent)
+//@   guard-call info:  "Exec" bindsInfo(agent)
+//@   guard-call proc:  "Exec" bindsProc(agent)
+//@   guard-call sched: "Exec" bindsSched(agent)
+
 //@ func (db *DB) AgentUpdate(agent *agent.Agent) (err error)
-//@   requires nonnil: db != nil && agent != nil && agent.Info != nil
+//@   requires nonnil: db != nil && db.db != nil && agent != nil && agent.Info != nil
+//@   ensures allids: ufb_ishex8(agent.NameID) ==> !(err != nil && ufb_parseerr(err))
+//@   guard-call table: "Exec" prefixof("UPDATE TS_Agents SET ", lastarg(Prepare, 1)) && suffixof(" WHERE AgentID = ?", lastarg(Prepare, 1)) && len(arg(1)) == 25
+//@   guard-call id:    "Exec" ufb_ishex8(agent.NameID) ==> bindI("AgentID") == uf_hexval(agent.NameID)
+//@   guard-call state: "Exec" bindI("Active") == ite(agent.Active, 1, 0) && bindS("Reason") == agent.Reason
+//@   guard-call keys:  "Exec" bindsKeys(agent)
+//@   guard-call info:  "Exec" bindsInfo(agent)
+//@   guard-call proc:  "Exec" bindsProc(agent)
+//@   guard-call sched: "Exec" bindsSched(agent)
+
+//@ func (db *DB) AgentHasDied(AgentID int) (r bool)
+//@   requires nonnil: db != nil && db.db != nil
+//@   guard-call stmt: "Exec" lastarg(Prepare, 1) == "UPDATE TS_Agents SET Active = 0 WHERE AgentID = ?" && len(arg(1)) == 1 && unboxed(arg(1)[0], int) == AgentID
+
+//@ func (db *DB) AgentExist(AgentID int) (r bool)
+//@   requires nonnil: db != nil && db.db != nil
+//@   guard-call stmt: "Query" lastarg(Prepare, 1) == "SELECT COUNT(*) FROM TS_Agents WHERE AgentID = ?" && len(arg(1)) == 1 && unboxed(arg(1)[0], int) == AgentID
+
+//@ func (db *DB) AgentRemove(AgentID int) (err error)
+//@   requires nonnil: db != nil && db.db != nil
+//@   guard-call stmt: "Exec" lastarg(Prepare, 1) == "DELETE FROM TS_Agents WHERE AgentID = ?" && len(arg(1)) == 1 && unboxed(arg(1)[0], int) == AgentID
+
+// Restoring: only rows marked active are read; each column lands in the variable
+// named after it, and the session is rebuilt from exactly those variables, with
+// the id rendered the way session ids are written (eight hex digits).
+//@ spec outP(col) = arg(1)[sqlout(lastarg(Query, 1), col)]
+//@ func (db *DB) AgentAll() (r []*agent.Agent)
+//@   requires nonnil: db != nil && db.db != nil
+//@   guard-call live:  "Query" prefixof("SELECT ", arg(1)) && suffixof(" FROM TS_Agents WHERE Active = 1", arg(1))
+//@   guard-call dest1: "Scan" len(arg(1)) == 25 && unboxed(outP("AgentID"), *int) == &AgentID && unboxed(outP("Active"), *int) == &Active && unboxed(outP("Reason"), *string) == &Reason && unboxed(outP("AESKey"), *string) == &AESKey && unboxed(outP("AESIv"), *string) == &AESIv
+//@   guard-call dest2: "Scan" unboxed(outP("Hostname"), *string) == &Hostname && unboxed(outP("Username"), *string) == &Username && unboxed(outP("DomainName"), *string) == &DomainName && unboxed(outP("ExternalIP"), *string) == &ExternalIP && unboxed(outP("InternalIP"), *string) == &InternalIP && unboxed(outP("OSVersion"), *string) == &OSVersion && unboxed(outP("OSArch"), *string) == &OSArch && unboxed(outP("FirstCallIn"), *string) == &FirstCallIn && unboxed(outP("LastCallIn"), *string) == &LastCallIn
+//@   guard-call dest3: "Scan" unboxed(outP("ProcessName"), *string) == &ProcessName && unboxed(outP("BaseAddress"), *int64) == &BaseAddress && unboxed(outP("ProcessPID"), *int) == &ProcessPID && unboxed(outP("ProcessTID"), *int) == &ProcessTID && unboxed(outP("ProcessPPID"), *int) == &ProcessPPID && unboxed(outP("ProcessArch"), *string) == &ProcessArch && unboxed(outP("Elevated"), *string) == &Elevated
+//@   guard-call dest4: "Scan" unboxed(outP("SleepDelay"), *int) == &SleepDelay && unboxed(outP("SleepJitter"), *int) == &SleepJitter && unboxed(outP("KillDate"), *int64) == &KillDate && unboxed(outP("WorkingHours"), *int32) == &WorkingHours
+//@   guard-call row1:  "append" Agent != nil && Agent.Info != nil && Agent.NameID == ufs_hex8(AgentID) && Agent.Active == (Active == 1) && Agent.Reason == Reason && ufs_b64text(Agent.Encryption.AESKey) == AESKey && ufs_b64text(Agent.Encryption.AESIv) == AESIv
+//@   guard-call row2:  "append" Agent.Info.Hostname == Hostname && Agent.Info.Username == Username && Agent.Info.DomainName == DomainName && Agent.Info.ExternalIP == ExternalIP && Agent.Info.InternalIP == InternalIP && Agent.Info.OSVersion == OSVersion && Agent.Info.OSArch == OSArch && Agent.Info.FirstCallIn == FirstCallIn && Agent.Info.LastCallIn == LastCallIn
+//@   guard-call row3:  "append" Agent.Info.ProcessName == ProcessName && Agent.Info.BaseAddress == BaseAddress && Agent.Info.ProcessPID == ProcessPID && Agent.Info.ProcessTID == ProcessTID && Agent.Info.ProcessPPID == ProcessPPID && Agent.Info.ProcessArch == ProcessArch && Agent.Info.Elevated == Elevated
+//@   guard-call row4:  "append" Agent.Info.SleepDelay == SleepDelay && Agent.Info.SleepJitter == SleepJitter && Agent.Info.KillDate == KillDate && Agent.Info.WorkingHours == WorkingHours
+
+// Links: parent and child columns are bound to the parameters named after them.
+//@ func (db *DB) LinkAdd(ParentAgentID int, LinkAgentID int) (err error)
+//@   requires nonnil: db != nil && db.db != nil
+//@   guard-call stmt: "Exec" prefixof("INSERT INTO TS_Links ", lastarg(Prepare, 1)) && len(arg(1)) == 2 && bindI("ParentAgentID") == ParentAgentID && bindI("LinkAgentID") == LinkAgentID
+//@ func (db *DB) LinkRemove(ParentAgentID int, LinkAgentID int) (err error)
+//@   requires nonnil: db != nil && db.db != nil
+//@   guard-call stmt: "Exec" prefixof("DELETE FROM TS_Links WHERE ", lastarg(Prepare, 1)) && contains(lastarg(Prepare, 1), " AND ") && len(arg(1)) == 2 && bindI("ParentAgentID") == ParentAgentID && bindI("LinkAgentID") == LinkAgentID
 //@ func (db *DB) LinkExist(ParentAgentID int, LinkAgentID int) (r bool)
-//@   requires nonnil: db != nil
+//@   requires nonnil: db != nil && db.db != nil
+//@   guard-call stmt: "Query" prefixof("SELECT COUNT(*) FROM TS_Links WHERE ", lastarg(Prepare, 1)) && contains(lastarg(Prepare, 1), " AND ") && len(arg(1)) == 2 && bindI("ParentAgentID") == ParentAgentID && bindI("LinkAgentID") == LinkAgentID
+//@ func (db *DB) ParentOf(AgentID int) (id int, err error)
+//@   requires nonnil: db != nil && db.db != nil
+//@   guard-call stmt: "Query" lastarg(Prepare, 1) == "SELECT ParentAgentID FROM TS_Links WHERE LinkAgentID = ?" && len(arg(1)) == 1 && unboxed(arg(1)[0], int) == AgentID
+//@   guard-call dest: "Scan" len(arg(1)) == 1 && unboxed(arg(1)[0], *int) == &ID
+//@ func (db *DB) LinksOf(AgentID int) (ids []int)
+//@   requires nonnil: db != nil && db.db != nil
+//@   guard-call stmt: "Query" lastarg(Prepare, 1) == "SELECT LinkAgentID FROM TS_Links WHERE ParentAgentID = ?" && len(arg(1)) == 1 && unboxed(arg(1)[0], int) == AgentID
+//@   guard-call dest: "Scan" len(arg(1)) == 1 && unboxed(arg(1)[0], *int) == &ID
+
+// Listeners.
+//@ func (db *DB) ListenerAdd(Name string, Protocol string, Config string) (err error)
+//@   requires nonnil: db != nil && db.db != nil
+//@   guard-call stmt: "Exec" prefixof("INSERT INTO TS_Listeners ", lastarg(Prepare, 1)) && len(arg(1)) == 3 && bindS("Name") == Name && bindS("Protocol") == Protocol && bindS("Config") == Config
+//@ func (db *DB) ListenerRemove(Name string) (err error)
+//@   requires nonnil: db != nil && db.db != nil
+//@   guard-call stmt: "Exec" lastarg(Prepare, 1) == "DELETE FROM TS_Listeners WHERE Name = ?" && len(arg(1)) == 1 && unboxed(arg(1)[0], string) == Name
 //@ func (db *DB) ListenerExist(Name string) (r bool)
-//@   requires nonnil: db != nil
+//@   requires nonnil: db != nil && db.db != nil
+//@ func (db *DB) ListenerAll() (r []map[string]string)
+//@   requires nonnil: db != nil && db.db != nil
+//@   guard-call all:  "Query" prefixof("SELECT ", arg(1)) && suffixof(" FROM TS_Listeners", arg(1))
+//@   guard-call dest: "Scan" len(arg(1)) == 3 && unboxed(outP("Name"), *string) == &Name && unboxed(outP("Protocol"), *string) == &Prot && unboxed(outP("Config"), *string) == &Conf
+//@   guard-call row:  "append" Data["Name"] == Name && Data["Protocol"] == Prot && Data["Config"] == Conf
+
+// The schema: every column that holds text must keep it byte for byte, i.e. have
+// TEXT affinity under SQLite's type-name rules (sqltext = 1).
+//@ spec textCol(c) = sqltext(arg(1), c) == 1
+//@ func (db *DB) init() (err error)
+//@   requires nonnil: db != nil && db.db != nil
+//@   guard-call agents: "Exec#2" textCol("Reason") && textCol("AESKey") && textCol("AESIv") && textCol("Hostname") && textCol("Username") && textCol("DomainName") && textCol("ExternalIP") && textCol("InternalIP") && textCol("ProcessName") && textCol("ProcessArch") && textCol("Elevated") && textCol("OSVersion") && textCol("OSArch") && textCol("FirstCallIn") && textCol("LastCallIn")
+//@   guard-call listeners: "Exec#1" textCol("Name") && textCol("Protocol") && textCol("Config")
